@@ -8,6 +8,9 @@ HARNESSES = {
     # header-only code under test: no library objects; one TU per capacity group (compiled in parallel)
     "fs_safety": dict(cfg="asan", sources=_SAFETY_SRC, use_lib=False),
     "fs_model": dict(cfg="asan", sources=_MODEL_SRC, use_lib=False),
+    "fuzz_fs": dict(cfg="fuzz", sources=["fuzz/fuzz_fs.cpp"], use_lib=False, rapidcheck=False, kind="fuzz",
+                    kind_text="libFuzzer target (clang, ASan+UBSan): bytes decoded with FuzzedDataProvider into the same operation "
+                              "stream for FixedString<8/255/256>, C10 oracle and (arguments forced in-domain) C11 oracle inside the target"),
 }
 
 _CAPS = [1, 2, 3, 4, 5, 7, 8, 16, 31, 255, 256, 1000, 65535, 65536]
@@ -33,6 +36,8 @@ PROPS["C10"] = dict(
              thorough=dict(shards=16, opts=dict(maxcap=3, maxtext=2))),
         dict(harness="fs_safety", mode="ops", quick=dict(cases=20000, size=100, shards=8),
              thorough=dict(cases=150000, size=100, shards=16)),
+        dict(harness="fuzz_fs", mode="raw", kind="fuzz", quick=dict(cases=150000, shards=4, max_len=512),
+             thorough=dict(cases=3000000, shards=8, max_len=512)),
     ],
     rule="exhaustive part: capacities 1..2 (thorough: 1..3) x every content over {a,b} x every single operation kind x every variant x "
          "every source object x source texts over {a,b} of length 0..2 x the argument grid {0..max(length,source length,L)+2, npos-1, "
@@ -48,10 +53,13 @@ PROPS["C10"] = dict(
          "(70000 for L>=1000) as C string, std::string (heap object), FixedString<4/300/70000>, another FixedString<L>, or the object "
          "itself; occasional embedded NUL (then the strlen clause is switched off). After EVERY operation: canaries intact, length()<=L, "
          "c_str()[length()]==0, strlen(c_str())==length() unless a NUL was stored, const sources unchanged; ASan/UBSan abort = violation; "
-         "a noexcept function ending in std::terminate = violation. Non-trivial = the sequence contains at least one argument beyond "
+         "a noexcept function ending in std::terminate = violation. Third engine: libFuzzer target fuzz_fs decoding bytes into the same "
+         "operation stream for L in {8,255,256} (up to 24 operations, same oracle, then the C11 oracle on the in-domain projection of "
+         "the same case). Non-trivial = the sequence contains at least one argument beyond "
          "the current length / remaining capacity / source length; distinct by hash of the serialised case.",
     require_classes=dict(all=["op." + n for n in _OPS_COMMON + ["iter_walk"]] + ["cap.%d" % c for c in _CAPS]
-                         + ["placement.exact_heap", "placement.canary_struct", "source.self"]),
+                         + ["placement.exact_heap", "placement.canary_struct", "source.self",
+                            "fuzz.execs", "fuzz.cap_8", "fuzz.cap_255", "fuzz.cap_256"]),
     assumptions=[
         "pointer arguments point to what they claim: const char* sources are NUL-terminated exact-size heap blocks and a count given "
         "together with a const char* never exceeds the characters behind the pointer (insert/append/replace/compare/find(str,count)); "
